@@ -26,7 +26,7 @@ func (vc *FuncVC) inputProbes() []probe {
 	var walk func(path string, v Val, t types.Type, depth int)
 	h0 := Heap{}
 	walk = func(path string, v Val, t types.Type, depth int) {
-		if depth > 4 {
+		if depth > 5 {
 			return
 		}
 		switch x := v.(type) {
